@@ -32,6 +32,54 @@ func (c *Check) slashFuncs() []*Func {
 	return out
 }
 
+// slashEntryFuncs: the slash functions together with their thin wrappers — functions that call a slash function on
+// every committed path, unconditionally, and settle nothing else themselves (e.g. "load the request, then slash it").
+func (c *Check) slashEntryFuncs(base []*Func) []*Func {
+	out := append([]*Func{}, base...)
+	in := map[*Func]bool{}
+	for _, f := range base {
+		in[f] = true
+	}
+	for changed := true; changed; {
+		changed = false
+		for _, f := range c.handFuncs("keeper", "service") {
+			if in[f] {
+				continue
+			}
+			nOK, all := 0, true
+			for _, pa := range c.P.PathsOf(f) {
+				if !pa.OK() {
+					continue
+				}
+				nOK++
+				ev, ok := pathHasCallTo(pa, out)
+				if !ok {
+					all = false
+					break
+				}
+				// unconditional: no branch fact precedes the call
+				for _, x := range pa.Events {
+					if x == ev {
+						break
+					}
+					if x.Kind == EvFact {
+						all = false
+					}
+				}
+				if _, r := c.pathHasEffect(f, pa, isFeeRefund); r {
+					all = false
+				}
+			}
+			if nOK > 0 && all {
+				in[f] = true
+				out = append(out, f)
+				changed = true
+			}
+		}
+	}
+	return out
+}
+
 func pathHasCallTo(pa *Path, fs []*Func) (*Event, bool) {
 	for _, ev := range pa.Events {
 		if ev.Kind == EvCall {
@@ -134,7 +182,16 @@ func ruleC04(c *Check) {
 
 	// (2) exactly-when and slash ⇔ refund, per calling unit
 	units := 0
+	base := ss
+	ss = c.slashEntryFuncs(base)
+	isEntry := map[*Func]bool{}
+	for _, f := range ss {
+		isEntry[f] = true
+	}
 	for _, f := range c.handFuncs("keeper", "service") {
+		if isEntry[f] {
+			continue
+		}
 		calls := false
 		for _, pa := range c.P.PathsOf(f) {
 			if _, ok := pathHasCallTo(pa, ss); ok {
@@ -226,6 +283,7 @@ func ruleC04(c *Check) {
 	c.req(units >= 2, "C04.1", "slash-callers", token.NoPos, fmt.Sprintf("%d units call the slash function", units))
 
 	// (4)/(5) inside the slash function
+	ss = base
 	for _, s := range ss {
 		c.slashInternals(s, gBinding)
 	}
